@@ -70,6 +70,9 @@ class C02World:
                 self.cs.pump()
                 self.twin = self.cs.new_client(module_id=20, timecode=self.cs.timecode)
                 self.twin.connect("127.0.0.1:7111", allow_multiple=True)
+            elif cfg.get("logger"):
+                # connected as a logger module: the client-side and manager-side subscription tables still have to agree
+                self.client.connect("127.0.0.1:7111", logger_status=True)
             else:
                 self.client.connect("127.0.0.1:7111")
             self.cs.pump()
@@ -306,6 +309,7 @@ def argshape(state, types):
 def run_case(cfg, ops, res: Result = None):
     w = C02World(cfg)
     try:
+        w.check_agreement("connect()")
         for op in ops:
             sub, paused = w.reported()
             st0 = abstract(sub, paused)
@@ -328,7 +332,8 @@ def run_case(cfg, ops, res: Result = None):
         w.close()
 
 
-CFGS = [{"timecode": False, "timing": True}, {"timecode": True, "timing": False}, {"timecode": False, "timing": False, "twin": True}]
+CFGS = [{"timecode": False, "timing": True}, {"timecode": True, "timing": False}, {"timecode": False, "timing": False, "twin": True},
+        {"timecode": False, "timing": False, "logger": True}]
 
 
 def st_types():
@@ -364,7 +369,7 @@ def shard(seed, n, max_len, quick, idx):
         if len(res.samples) < 2:
             res.sample({"cfg": CFGS[ci], "ops": ops[:12]})
 
-    hyp_run(body, st.tuples(st.sampled_from([0, 1, 0, 1, 2]), st.lists(st_op(), min_size=3, max_size=max_len)), seed, n, res)
+    hyp_run(body, st.tuples(st.sampled_from([0, 1, 0, 1, 2, 3]), st.lists(st_op(), min_size=3, max_size=max_len)), seed, n, res)
     # exhaustive sub-domain (thorough: complete; quick: the slice idx of 16*8)
     res.merge(enumerate_small(idx, 16, 1))
     return res
